@@ -23,6 +23,11 @@ CHECKS = {
     note="WF hypothesis (dependencies resolve in the phase, bounded rank function) is what C10.accept_implies_consumers_safe proves for accepted methods. The pinned tree spliced a requested statement in front of its planned-but-unexecuted dependency; repaired by a fix: commit (the model is of the repaired code).",
     technique="Lean 4 proof (invariant by induction over update_plan recursion and the run loop, rank-function argument) over hand-written model; exhaustive small-scope + random differential correspondence with exact visit logs",
     ref="7/C04"),
+ "C05": dict(
+    text="Lean 4 theorems over the model of create_ast_from_phase composed with the C06 model of simplify_ast: on every well-formed phase the iterative DFS terminates and lists every statement exactly once, dependencies first (proved by showing that it takes the same steps as the verifier's machine whose frame invariant is proved for C10); lowering never fails; for EVERY guard valuation and ALL trip counts the structured program executes exactly, per statement in that order, nothing for a no-op or a false guard and otherwise the statement once per iteration vector of exactly its declared loops; the result is identical for every storage order of the statements (permutation invariance via uniqueness of sorted lists); the generic walker lower_node has a case for every node of the result. Correspondence: exact structured program of the real function on all DAGs of <= 3 statements x all relabellings x guard choices, random phases with no-ops, constant guards, loop nests; leaves must come back with condition=True and no loops, loops with the declared bounds.",
+    note="LWF (unique ids, dependencies resolve in the phase, rank function) is what C10 establishes for accepted methods. Ids are numbered by sorted rank in the harness (str comparison of CPython is trusted). Guards are flags/negations/constants.",
+    technique="Lean 4 proof (simulation of the verifier's DFS machine, structural induction, sorted-permutation uniqueness) over hand-written model; exhaustive small-scope + random differential correspondence; independent trace oracle over all flag valuations",
+    ref="7/C05"),
 }
 
 NOT_APPLICABLE = {}
